@@ -41,10 +41,13 @@ def _match(a, b, k):
         raise NotImplementedError
 
 
+def _ascii_upper(s: str) -> str:
+    # RFC 4790 section 9.2: only a-z are mapped; other octets are left alone
+    return "".join(chr(ord(c) - 32) if "a" <= c <= "z" else c for c in s)
+
+
 collations: dict[str, Callable[[str, str, str], bool]] = {
-    "i;ascii-casemap": lambda a, b, k: _match(
-        a.encode("ascii").upper(), b.encode("ascii").upper(), k
-    ),
+    "i;ascii-casemap": lambda a, b, k: _match(_ascii_upper(a), _ascii_upper(b), k),
     "i;octet": lambda a, b, k: _match(a, b, k),
     # TODO(jelmer): Follow all rules as specified in
     # https://datatracker.ietf.org/doc/html/rfc5051
